@@ -609,7 +609,7 @@ class Sim:
             self.refused_rounds += 1
         if not r.get("promoted") or not self.ff_now or r["sb_fail"] or self.scen.get("mode") == "local" or self.scen.get("dry_run"):
             return
-        if r["kind"] not in ("try-submit-jobs", "submit-jobs"):
+        if r["kind"] not in ("try-submit-jobs", "submit-jobs") or r.get("epoch0") != self.epoch:
             return
         o = self.observe(f"round end {r['host']}")
         if o is None:
@@ -702,7 +702,7 @@ class Sim:
         self.next_id += 1
         bid = self.next_id
         self.batches[bid] = {"state": "PENDING", "script": script, "proc": None, "seen": False, "jobs": names or [], "epoch": self.epoch}
-        active = len(self.active_batches())
+        active = len([b for b in self.active_batches() if self.batches[b]["epoch"] == self.epoch])  # per submission
         self.max_active = max(self.max_active, active)
         rec = {"id": bid, "script": script, "jobs": names or [], "by": a.host, "active_after": active, "step": self.steps, "epoch": self.epoch}
         self.sbatches.append(rec)
@@ -1078,6 +1078,7 @@ class Sim:
                 "kind": kind,
                 "top": a.top,
                 "ord": self.sub_ord[a.pid],
+                "epoch0": self.epoch,
             }
             self.round_hosts.add(a.host)
             if kind == "cancel-jobs":
